@@ -13,20 +13,20 @@ namespace LolHtml.Model
 
 variable {tbl : Table} {cfg : TagCfg} {inp : Bytes}
 
-/-- contexts (and table state of the first) of a related pair -/
-def XRel (cfg : TagCfg) (P : PLabels) (m1 m2 : M L) : Prop :=
-  ∃ ms0 ml0 : M L, RelAt cfg P ms0 ml0 ∧ m1.x = ms0.x ∧ m2.x = ml0.x ∧ m1.c.state = ms0.c.state
+/-- the two results are `break_on_end_of_input` of a related pair -/
+def XRel (cfg : TagCfg) (P : PLabels) (inp : Bytes) (rs rl : M L × Option Signal) : Prop :=
+  ∃ ms0 ml0 : M L, RelAt cfg P ms0 ml0 ∧ rs = breakOnEndOfInput inp ms0 ∧ rl = breakOnEndOfInput inp ml0
 
 /-- both report "end of input" ⇒ `XRel` -/
-def EndRel (cfg : TagCfg) (P : PLabels) (rs rl : M L × Option Signal) : Prop :=
-  ∀ a b, rs.2 = some (.endOfInput a) → rl.2 = some (.endOfInput b) → XRel cfg P rs.1 rl.1
+def EndRel (cfg : TagCfg) (P : PLabels) (inp : Bytes) (rs rl : M L × Option Signal) : Prop :=
+  ∀ a b, rs.2 = some (.endOfInput a) → rl.2 = some (.endOfInput b) → XRel cfg P inp rs rl
 
-theorem EndRel.left {P : PLabels} {rs rl : M L × Option Signal} (h : Signal.isEnd rs.2 = false) : EndRel cfg P rs rl := by
+theorem EndRel.left {P : PLabels} {rs rl : M L × Option Signal} (h : Signal.isEnd rs.2 = false) : EndRel cfg P inp rs rl := by
   intro a b h1 _
   rw [h1] at h
   simp [Signal.isEnd] at h
 
-theorem EndRel.right {P : PLabels} {rs rl : M L × Option Signal} (h : Signal.isEnd rl.2 = false) : EndRel cfg P rs rl := by
+theorem EndRel.right {P : PLabels} {rs rl : M L × Option Signal} (h : Signal.isEnd rl.2 = false) : EndRel cfg P inp rs rl := by
   intro a b _ h1
   rw [h1] at h
   simp [Signal.isEnd] at h
@@ -52,8 +52,8 @@ theorem break_x {κ : Type} (m : M κ) :
   · exact ⟨hm'.1, by simp only; rw [hm'.2]⟩
 
 theorem break_end {P : PLabels} (ms ml : M L) (h : RelAt cfg P ms ml) :
-    EndRel cfg P (breakOnEndOfInput inp ms) (breakOnEndOfInput inp ml) :=
-  fun _ _ _ _ => ⟨ms, ml, h, (break_x ms).1, (break_x ml).1, (break_x ms).2⟩
+    EndRel cfg P inp (breakOnEndOfInput inp ms) (breakOnEndOfInput inp ml) :=
+  fun _ _ _ _ => ⟨ms, ml, h, rfl, rfl⟩
 
 theorem finishArm_some {κ : Type} (r : M κ × Option Signal × SeqEnd) (sig : Signal) (h : r.2.1 = some sig) :
     finishArm inp r = (r.1, some sig) := by
@@ -69,7 +69,7 @@ theorem finishArm_fell {κ : Type} (r : M κ × Option Signal × SeqEnd) (h1 : r
 
 theorem finishArm_end (P : PLabels) (b : Body) (self : StateId) (hok : bodyOkP tbl P self b = true) (ms ml : M L)
     (h : Rel cfg (P.at self) ms ml) (hst : ms.c.state = self) :
-    EndRel cfg P (finishArm inp (runBody (envS tbl cfg) inp b ms)) (finishArm inp (runBody (envL tbl cfg) inp b ml)) := by
+    EndRel cfg P inp (finishArm inp (runBody (envS tbl cfg) inp b ms)) (finishArm inp (runBody (envL tbl cfg) inp b ml)) := by
   have hS := (runBody_scan (env := envS tbl cfg) (inp := inp) b ms (Rel_kinds h).1).1
   have hL := (runBody_lex (env := envL tbl cfg) (inp := inp) b ml (Rel_kinds h).2).1
   cases hs : (runBody (envS tbl cfg) inp b ms).2.1 with
@@ -94,7 +94,7 @@ theorem finishArm_end (P : PLabels) (b : Body) (self : StateId) (hok : bodyOkP t
 theorem afterSeq_end (P : PLabels) (self : StateId) (ch : Option UInt8) (arms : List Arm)
     (hsub : ∀ a ∈ arms, bodyOkP tbl P self a.body = true) (ms ml : M L)
     (h : Rel cfg (P.at self) ms ml) (hst : ms.c.state = self) :
-    EndRel cfg P (afterSeq (envS tbl cfg) inp ch arms ms) (afterSeq (envL tbl cfg) inp ch arms ml) := by
+    EndRel cfg P inp (afterSeq (envS tbl cfg) inp ch arms ms) (afterSeq (envL tbl cfg) inp ch arms ml) := by
   obtain ⟨f1, f2, f3, f4, f5, f6⟩ := Rel_fields h
   have hat : RelAt cfg P ms ml := by unfold RelAt; rw [hst]; exact h
   unfold afterSeq
@@ -118,7 +118,7 @@ theorem runSeqArms_end (P : PLabels) (self : StateId) (ch : Option UInt8) (arms 
     (hsub : ∀ a ∈ arms, bodyOkP tbl P self a.body = true) (ms ml : M L)
     (h : Rel cfg (P.at self) ms ml) (hst : ms.c.state = self) :
     match runSeqArms (envS tbl cfg) inp ch arms ms, runSeqArms (envL tbl cfg) inp ch arms ml with
-    | .inl rs, .inl rl => EndRel cfg P rs rl
+    | .inl rs, .inl rl => EndRel cfg P inp rs rl
     | _, _ => True := by
   induction arms generalizing ms ml with
   | nil => simp only [runSeqArms]
@@ -153,7 +153,7 @@ theorem runSeqArms_end (P : PLabels) (self : StateId) (ch : Option UInt8) (arms 
 theorem dispatch_end (P : PLabels) (self : StateId) (ch : Option UInt8) (arms : List Arm)
     (hsub : ∀ a ∈ arms, bodyOkP tbl P self a.body = true) (ms ml : M L)
     (h : Rel cfg (P.at self) ms ml) (hst : ms.c.state = self) :
-    EndRel cfg P (dispatch (envS tbl cfg) inp ch arms ms) (dispatch (envL tbl cfg) inp ch arms ml) := by
+    EndRel cfg P inp (dispatch (envS tbl cfg) inp ch arms ms) (dispatch (envL tbl cfg) inp ch arms ml) := by
   rw [dispatch_eq, dispatch_eq]
   have hshape := runSeqArms_rel (tbl := tbl) (cfg := cfg) (inp := inp) P self ch arms hsub ms ml h hst
   have hend := runSeqArms_end (tbl := tbl) (cfg := cfg) (inp := inp) P self ch arms hsub ms ml h hst
@@ -171,7 +171,7 @@ theorem dispatch_end (P : PLabels) (self : StateId) (ch : Option UInt8) (arms : 
 
 theorem consumeStep_end (P : PLabels) (sd : StateDef) (self : StateId) (hok : stateOkP tbl P self sd = true) (ms ml : M L)
     (h : Rel cfg (P.at self) ms ml) (hst : ms.c.state = self) :
-    EndRel cfg P (consumeStep (envS tbl cfg) inp sd ms) (consumeStep (envL tbl cfg) inp sd ml) := by
+    EndRel cfg P inp (consumeStep (envS tbl cfg) inp sd ms) (consumeStep (envL tbl cfg) inp sd ml) := by
   simp only [stateOkP, Bool.and_eq_true, List.all_eq_true] at hok
   have hsub : ∀ a ∈ sd.arms, bodyOkP tbl P self a.body = true := hok.2
   obtain ⟨f1, _⟩ := Rel_fields h
@@ -198,11 +198,11 @@ theorem consumeStep_end (P : PLabels) (sd : StateDef) (self : StateId) (hok : st
 /-- **The last state-function call**: if both machines report "end of input", the machines just before
 `break_on_end_of_input` were related. -/
 theorem stateFn_end (P : PLabels) (hok : PhaseOk tbl P = true) (ms ml : M L) (h : RelAt cfg P ms ml) :
-    EndRel cfg P (stateFn (envS tbl cfg) inp ms) (stateFn (envL tbl cfg) inp ml) := by
+    EndRel cfg P inp (stateFn (envS tbl cfg) inp ms) (stateFn (envL tbl cfg) inp ml) := by
   unfold RelAt at h
   obtain ⟨_, _, f3, _⟩ := Rel_fields h
   rw [stateFn_preConsume, stateFn_preConsume]
-  show EndRel cfg P (match tbl.state? ms.c.state with | none => _ | some sd => _)
+  show EndRel cfg P inp (match tbl.state? ms.c.state with | none => _ | some sd => _)
     (match tbl.state? ml.c.state with | none => _ | some sd => _)
   rw [← f3]
   cases hsd : tbl.state? ms.c.state with
@@ -230,7 +230,8 @@ theorem stateFn_end (P : PLabels) (hok : PhaseOk tbl P = true) (ms ml : M L) (h 
 /-- the parsing loops: both end with "end of input" ⇒ `XRel` -/
 theorem runLoop_end (P : PLabels) (hok : PhaseOk tbl P = true) (n : Nat) (ms ml ms' ml' : M L) (h : RelAt cfg P ms ml)
     (a b : Nat) (hs : runLoop (envS tbl cfg) inp n ms = (ms', .endOfInput a))
-    (hl : runLoop (envL tbl cfg) inp n ml = (ml', .endOfInput b)) : XRel cfg P ms' ml' := by
+    (hl : runLoop (envL tbl cfg) inp n ml = (ml', .endOfInput b)) :
+    XRel cfg P inp (ms', some (.endOfInput a)) (ml', some (.endOfInput b)) := by
   induction n generalizing ms ml with
   | zero => simp [runLoop] at hs
   | succ n ih =>
@@ -260,7 +261,78 @@ theorem runLoop_end (P : PLabels) (hok : PhaseOk tbl P = true) (n : Nat) (ms ml 
         simp only [h1, h2] at hs hl
         simp only [Prod.mk.injEq] at hs hl
         have := hendr a b (by rw [h1, hs.2]) (by rw [h2, hl.2])
-        rw [hs.1, hl.1] at this
+        have e1 : stateFn (envS tbl cfg) inp ms = (ms', some (.endOfInput a)) := Prod.ext hs.1 (by rw [h1, hs.2])
+        have e2 : stateFn (envL tbl cfg) inp ml = (ml', some (.endOfInput b)) := Prod.ext hl.1 (by rw [h2, hl.2])
+        rw [e1, e2] at this
         exact this
+
+/-! ### across the break: when both machines consume the same number of bytes, the resumed machines are related -/
+
+theorem break_eq_of_end {κ : Type} (m : M κ) (a : Nat) (h : (breakOnEndOfInput inp m).2 = some (.endOfInput a)) :
+    (breakOnEndOfInput inp m).1 =
+      { (if m.c.isLast = true then m else adjustForNextInput m) with c := { m.c with nextPos := m.c.nextPos - 1 - a } } ∧
+    consumedByteCount inp m = a := by
+  unfold breakOnEndOfInput at h ⊢
+  dsimp only at h ⊢
+  have hm' : (if m.c.isLast = true then m else adjustForNextInput m).c = m.c := by
+    split
+    · rfl
+    · exact (adjust_x m).2
+  generalize (if m.c.isLast = true then m else adjustForNextInput m) = m' at h hm' ⊢
+  by_cases hu : m'.c.nextPos = 0 ∨ m'.c.nextPos - 1 < consumedByteCount inp m
+  · rw [if_pos hu] at h
+    simp at h
+  · rw [if_neg hu] at h ⊢
+    simp only [Option.some.injEq, Signal.endOfInput.injEq] at h
+    refine ⟨?_, h⟩
+    rw [hm', h]
+
+theorem adjust_scan {κ : Type} (c : Common) (s : ScanRegs) (x : Ctx κ) (b : Bool) :
+    ∃ s', (if b = true then (⟨c, .scanner s, x⟩ : M κ) else adjustForNextInput ⟨c, .scanner s, x⟩) = ⟨c, .scanner s', x⟩ ∧
+      s'.isInEndTag = s.isInEndTag ∧ s'.tagNameHash = s.tagNameHash ∧ s'.pendingTextTypeChange = s.pendingTextTypeChange := by
+  cases b with
+  | true => exact ⟨s, rfl, rfl, rfl, rfl⟩
+  | false =>
+    simp only [Bool.false_eq_true, if_false]
+    unfold adjustForNextInput
+    dsimp only
+    cases s.tagStart with
+    | none => exact ⟨s, rfl, rfl, rfl, rfl⟩
+    | some ts => exact ⟨_, rfl, rfl, rfl, rfl⟩
+
+theorem tagKey_align (t : TagOutline) (o : Nat) : tagKey (t.align o) = tagKey t := by
+  cases t <;> rfl
+
+theorem adjust_lex {κ : Type} (c : Common) (l : LexRegs) (x : Ctx κ) (b : Bool) :
+    ∃ l', (if b = true then (⟨c, .lexer l, x⟩ : M κ) else adjustForNextInput ⟨c, .lexer l, x⟩) = ⟨c, .lexer l', x⟩ ∧
+      l'.curTag.map tagKey = l.curTag.map tagKey ∧ l'.fd = l.fd := by
+  cases b with
+  | true => exact ⟨l, rfl, rfl, rfl⟩
+  | false =>
+    simp only [Bool.false_eq_true, if_false]
+    unfold adjustForNextInput
+    dsimp only
+    refine ⟨_, rfl, ?_, rfl⟩
+    dsimp only
+    cases l.curTag with
+    | none => rfl
+    | some t => simp only [Option.map_some, tagKey_align]
+
+/-- **across the break**: related machines that break reporting the SAME consumed byte count resume related -/
+theorem break_rel {P : PLabels} (ms ml : M L) (h : RelAt cfg P ms ml) (a : Nat)
+    (hs : (breakOnEndOfInput inp ms).2 = some (.endOfInput a)) (hl : (breakOnEndOfInput inp ml).2 = some (.endOfInput a)) :
+    RelAt cfg P (breakOnEndOfInput inp ms).1 (breakOnEndOfInput inp ml).1 := by
+  obtain ⟨e1, _⟩ := break_eq_of_end (inp := inp) ms a hs
+  obtain ⟨e2, _⟩ := break_eq_of_end (inp := inp) ml a hl
+  rw [e1, e2]
+  unfold RelAt at h ⊢
+  obtain ⟨cs, s, xs, cl, l, xl, rfl, rfl, hc⟩ := Rel_destruct h
+  obtain ⟨s', es, s1, s2, s3⟩ := adjust_scan cs s xs cs.isLast
+  obtain ⟨l', el, l1, l2⟩ := adjust_lex cl l xl cl.isLast
+  dsimp only at es el ⊢
+  rw [es, el]
+  have h1 := Conc_common (cfg := cfg) (fun c => { c with nextPos := c.nextPos - 1 - a }) (fun _ _ _ => rfl) hc
+  have h2 := Conc_congr_scan (s' := s') h1 s1 s2 s3
+  exact Conc_congr_lex (l' := l') (xl' := xl) h2 l1 l2 rfl rfl
 
 end LolHtml.Model
